@@ -28,7 +28,7 @@ CHECKS = [
     ("protocol/h11.py", "C06 C01 C02 C13 C07 C03 C04 C18 C05 C08 C11 C12 C16"),
     ("protocol/h2.py", "C09 C01 C02 C08 C07 C18 C04 C03 C05 C13 C12 C11 C10 C15 C16"),
     ("protocol/http_stream.py", "C02 C01 C03 C05 C12 C06 C04 C16"),
-    ("protocol/ws_stream.py", "C10 C11 C12 C03 C04 C16"),
+    ("protocol/ws_stream.py", "C10 C11 C12 C03 C04 C16 C07"),
     ("protocol/__init__.py", "C13 C07 C04"),
     ("protocol/events.py", "C01 C02"),
     ("asyncio/tcp_server.py", "C07 C08 C03 C01 C02 C13 C15 C16 C04"),
